@@ -137,6 +137,9 @@ func run() (code int) {
 		}
 		defer os.RemoveAll(scratch)
 		return simkit.RunShard(c, args[2], args[3], seed, from, to, simkit.Env{AtlasBin: o.AtlasBin, Scratch: scratch})
+	case "racechild":
+		seed, _ := strconv.ParseUint(args[1], 10, 64)
+		return registry.RaceChild(seed)
 	case "detop":
 		if registry.Detop == nil || len(args) < 3 {
 			return simkit.ExitHarness
